@@ -98,6 +98,46 @@ def par_eval(ck: Ck, jobs: list[tuple]) -> list:
         return list(ex.map(lambda j: ck.coq_eval(j[0], j[1], name=j[2], preamble=j[3]), jobs))
 
 
+# ---- escalation per format family.  A broken tie switches the stages OF THE FORMAT IT CONCERNS to their thorough budget (that is
+# where the failing input is to be found); the other formats keep the quick budget, so a run with a real fault stays in minutes.
+# '*' (a tie that cannot be attributed: failed build, hygiene, unevaluable group) escalates everything, as Ck.budget would.
+FAMILIES = ('cmdseq', 'smd', 'sndscript', 'vmt', 'pcf', 'vcd-text', 'vcd-binary', 'scenes-image')
+FAMILY_OF_OBLIGATION = (('cmdseq_', 'cmdseq'), ('smd_', 'smd'), ('sndscript_', 'sndscript'), ('vmt_', 'vmt'), ('vcd_text_', 'vcd-text'),
+                        ('vcd_binary_', 'vcd-binary'), ('image_', 'scenes-image'))
+
+
+def tie_families(tie: str) -> set[str]:
+    """The format families a broken tie (one string of ck.tie_broken) concerns."""
+    if tie.startswith('instance obligations about '):
+        names = tie.split(' fail: ', 1)[-1].split(', ')
+        fams = {f for n in names for pre, f in FAMILY_OF_OBLIGATION if n.startswith(pre)}
+        return fams or {'*'}
+    fams = set()
+    for word, fs in (('cmdseq', ('cmdseq',)), ('CmdSeqFmt_gen', ('cmdseq',)), ('SmdTpl_gen', ('smd',)), ('scenes.image', ('scenes-image',)),
+                     ('ScenesImg_gen', ('scenes-image',)), ('scene summary', ('scenes-image',)), ('soundscript', ('sndscript',)),
+                     ('VMT', ('vmt',)), ('binary choreo', ('vcd-binary',)), ('ChoreoBin_gen', ('vcd-binary',)),
+                     ('TextFields_gen', ('sndscript', 'vmt', 'vcd-text'))):
+        if word in tie:
+            fams.update(fs)
+    return fams or {'*'}
+
+
+def escalated(ck: Ck) -> list[str]:
+    fams = set()
+    for t in ck.tie_broken:
+        fams |= tie_families(t)
+    esc = sorted(fams)
+    ck.extra['escalated_families'] = esc
+    return esc
+
+
+def bud(ck: Ck, fams: tuple[str, ...], quick: int, thorough: int) -> int:
+    if ck.thorough:
+        return thorough
+    esc = escalated(ck)
+    return thorough if ('*' in esc or any(f in esc for f in fams)) else quick
+
+
 def rle(b: bytes) -> str:
     out = []
     i = 0
@@ -197,7 +237,7 @@ def cs_nonrepresentable(rng: random.Random, spec: dict) -> dict:
 
 
 def corr_cmdseq_write(ck: Ck, files: list[tuple[dict, bytes]]):
-    n = ck.budget(30, 600)
+    n = bud(ck, ('cmdseq',), 30, 600)
     cases = []
     for i in range(n):
         spec = U.cmdseq_gen(ck.rng)
@@ -300,7 +340,7 @@ def cs_mutate(rng: random.Random, data: bytes) -> tuple[str, bytes]:
 
 
 def corr_cmdseq_parse(ck: Ck, files: list[tuple[dict, bytes]]) -> None:
-    n = ck.budget(40, 800)
+    n = bud(ck, ('cmdseq',), 40, 800)
     cases = []
     base = [d for _, d in files if len(d) < 6000] or [U.cmdseq_write({})]
     for i in range(n):
@@ -390,7 +430,7 @@ def image_case(rng: random.Random):
 def corr_image(ck: Ck) -> None:
     from srctools import binformat
     from srctools.choreo import save_scenes_image_sync, parse_scenes_image
-    n = ck.budget(32, 600)
+    n = bud(ck, ('scenes-image',), 24, 600)
     wcases = []
     pcases = []
     for _ in range(n):
@@ -521,7 +561,7 @@ def corr_image_pool(ck: Ck) -> None:
     entries sharing a pool plus scene-backed entries, values struct.pack refuses."""
     from srctools import binformat
     from srctools.choreo import Entry, CRC, save_scenes_image_sync
-    n = ck.budget(40, 300)
+    n = bud(ck, ('scenes-image',), 30, 300)
     cases = []
     for _ in range(n):
         rng = ck.rng
@@ -695,7 +735,7 @@ def corr_snd_stacks(ck: Ck) -> None:
     STK = ['SStart', 'SUpdate', 'SStop']
     shapes = [None, [], [1], [2, 3]]
     histories = [[], [0], [1], [2], [0, 1], [2, 0], [0, 1, 2], [1, 1, 2]]
-    per_state = ck.budget(2, len(histories))
+    per_state = bud(ck, ('sndscript',), 2, len(histories))
     cases = []
 
     def observe(text: str) -> list[int]:
@@ -787,7 +827,7 @@ def corr_vmt_quote(ck: Ck) -> None:
     ck.hist('vmt_needs_quotes', 'all strings of length <= 2 over %d characters' % len(alpha), len(strs))
     lcases = []
     pool = ['$basetexture', 'a', '/x', '#x', 'a b', 'x/y', 'a\\b', '[1 2]', '', '{', 'x=y', "it's", 'models/props/tex', '$x[0]', '>=dx90?$x', 'a,b', '﻿z']
-    for _ in range(ck.budget(40, 400)):
+    for _ in range(bud(ck, ('vmt',), 40, 400)):
         nm = ck.rng.choice([p for p in pool if p.strip()] + [U.rstr(ck.rng, U.VMT_ALPHA, 1, 6)])
         val = ck.rng.choice(pool + [U.rstr(ck.rng, U.VMT_ALPHA, 0, 8)])
         if not nm.strip():
@@ -805,26 +845,52 @@ def corr_vmt_quote(ck: Ck) -> None:
         if line is not None and len(line) > 6:
             ck.seen(('vmtline', nm, val))
 
+    # whole files of parameter-only materials (0-4 parameters with distinct names, shader names with and without a space)
+    fcases = []
+    for _ in range(bud(ck, ('vmt',), 25, 300)):
+        shader = ck.rng.choice(['VertexLitGeneric', 'a', 'Lightmapped_4WayBlend', 'Unlit Generic', 'patch', U.rstr(ck.rng, U.VMT_ALPHA, 1, 6)])
+        params: list[tuple[str, str]] = []
+        for _k in range(ck.rng.choice([0, 1, 2, 3, 4])):
+            nm = ck.rng.choice([p for p in pool if p.strip()] + [U.rstr(ck.rng, U.VMT_ALPHA, 1, 6)])
+            if nm.strip() and nm.casefold() not in {a.casefold() for a, _b in params}:
+                params.append((nm, ck.rng.choice(pool + [U.rstr(ck.rng, U.VMT_ALPHA, 0, 8)])))
+        try:
+            m = V.Material(shader)
+            for a, b in params:
+                m[a] = b
+            text = U.vmt_write(m) if [(v.name, v.value) for v in m._params.values()] == params else None
+        except Exception:
+            text = None
+        fcases.append((shader, params, text))
+        ck.count('vmt_file_cases')
+        ck.hist('vmt_file_params', len(params))
+        if text is not None and len(params) >= 2:
+            ck.seen(('vmtfile', shader, tuple(params)))
+
     def cs(t: str) -> str:
         return nl(map(ord, t))
+    e3 = 'bad_idx (fun c : (list N * list (list N * list N)) * option (list N) => onl_eqb (Some (VmtQuote.vmt_file vmt_nq (fst (fst c)) (snd (fst c)))) (snd c)) 0 ' + coq_list(
+        f'(({cs(sh)}, {coq_list(f"({cs(a)}, {cs(b)})" for a, b in ps)}), {"None" if tx is None else "Some " + cs(tx)})' for sh, ps, tx in fcases)
     e1 = 'bad_idx (fun c : list N * N => N.eqb (if VmtQuote.needs_quotes vmt_nq (fst c) then 1 else 0) (snd c)) 0 ' + coq_list(
         f'({cs(t)}, {2 if r is None else int(r)})' for t, r in qcases)
     e2 = 'bad_idx (fun c : (list N * list N) * option (list N) => onl_eqb (Some (VmtQuote.param_line vmt_nq (fst (fst c)) (snd (fst c)))) (snd c)) 0 ' + coq_list(
         f'(({cs(a)}, {cs(b)}), {"None" if ln is None else "Some " + cs(ln)})' for a, b, ln in lcases)
-    [vals] = yield [(IMP_TXT, [e1, e2], 'vmtquote', PRE)]
+    [vals] = yield [(IMP_TXT, [e1, e2, e3], 'vmtquote', PRE)]
     if vals is None:
         ck.obligation('correspondence:vmt-quoting', False, 'model could not be evaluated')
         ck.tie_broken.append('correspondence VMT quoting: model evaluation failed')
         return
-    b1, b2 = parse_coq_N_list(vals[0]), parse_coq_N_list(vals[1])
-    ck.obligation('correspondence:vmt-quoting', not b1 and not b2,
+    b1, b2, b3 = parse_coq_N_list(vals[0]), parse_coq_N_list(vals[1]), parse_coq_N_list(vals[2])
+    ck.obligation('correspondence:vmt-quoting', not b1 and not b2 and not b3,
                   f'{len(qcases)} strings (all of length <= 2 over {len(alpha)} characters): VmtQuote.needs_quotes over the generated table vs '
                   f'vmt._needs_quotes: {len(b1)} disagreements; {len(lcases)} (name, value) pairs: VmtQuote.param_line vs the line Material.export '
-                  f'writes: {len(b2)} disagreements')
-    if b1 or b2:
+                  f'writes: {len(b2)} disagreements; {len(fcases)} parameter-only materials (0-4 parameters): VmtQuote.vmt_file vs the whole '
+                  f'exported file: {len(b3)} disagreements')
+    if b1 or b2 or b3:
         ck.tie_broken.append('correspondence VMT quoting (Fmt/VmtQuote.v over Gen/TextFields_gen.v vs vmt._needs_quotes / Material.export)')
         ck.extra['vmt_quote_disagreement'] = {'string': qcases[b1[0]][0], 'impl': qcases[b1[0]][1]} if b1 else \
-            {'name': lcases[b2[0]][0], 'value': lcases[b2[0]][1], 'impl_line': lcases[b2[0]][2]}
+            {'name': lcases[b2[0]][0], 'value': lcases[b2[0]][1], 'impl_line': lcases[b2[0]][2]} if b2 else \
+            {'shader': fcases[b3[0]][0], 'params': fcases[b3[0]][1], 'impl_file': fcases[b3[0]][2]}
 
 
 # ================================================================================================ binary choreo correspondence
@@ -889,7 +955,7 @@ def cb_scene_value(sc, pool: list[str]) -> str:
 def corr_choreo_bin(ck: Ck) -> None:
     """`enc (scene_lay ...)` of Fmt/ChoreoBin.v vs Scene.export_binary, byte for byte, and `dec` of those bytes gives the value back."""
     from srctools import binformat
-    n = ck.budget(40, 400)
+    n = bud(ck, ('vcd-binary',), 40, 400)
     cases = []
     impl_errors: list[dict] = []
     for _ in range(n):
@@ -949,7 +1015,7 @@ def corr_summary(ck: Ck) -> None:
     """`summary_of` of Fmt/SceneSummary.v vs Entry.from_scene on generated binary scenes (float32 times, exact)."""
     from fractions import Fraction
     from srctools.choreo import Entry, EventType, CaptionType, SpeakEvent
-    n = ck.budget(60, 600)
+    n = bud(ck, ('scenes-image',), 60, 600)
     cases = []
     SC = 2 ** 160
 
@@ -1289,7 +1355,7 @@ def sample_files(ck: Ck) -> None:
 
 # ================================================================================================ main
 
-QUICK = {'cmdseq': 150, 'smd': 500, 'sndscript': 500, 'vmt': 600, 'pcf': 300, 'vcd-text': 160, 'vcd-binary': 400, 'scenes-image': 50}
+QUICK = {'cmdseq': 150, 'smd': 500, 'sndscript': 500, 'vmt': 600, 'pcf': 300, 'vcd-text': 160, 'vcd-binary': 400, 'scenes-image': 40}
 THOROUGH_FACTOR = {'vcd-text': 25, 'scenes-image': 24}
 
 
@@ -1421,6 +1487,8 @@ def run(ck: Ck) -> None:
             'vmt_field_census_nonempty': 'Nat.leb 5 (length vmt_fields)',
             'vmt_needs_quotes_covers_empty_comment_directive_and_every_delimiter': 'VmtQuote.nq_okb vmt_nq',
             'vmt_parameter_line_is_tab_name_space_value_newline_both_quoted_on_demand': 'vmt_param_line_is_tab_name_space_value_newline',
+            'vmt_parameter_line_writes_the_name_attribute_then_the_value_attribute': 'vmt_param_line_writes_the_name_attribute_then_the_value_attribute',
+            'vmt_file_is_shader_line_open_brace_parameter_lines_close_brace': 'vmt_file_is_shader_brace_parameter_lines_brace',
             'vcd_text_free_text_escaped_and_quoted': 'free_text_escaped cho_fields',
             'vcd_text_no_escape_outside_quotes': 'no_escape_outside_quotes cho_fields',
             'vcd_text_block_keywords_are_literals_outside_quotes': 'keywords_bare cho_fields',
@@ -1489,14 +1557,15 @@ def run(ck: Ck) -> None:
     lap('print-assumptions(join)')
     # ---- search (always; larger when a tie is broken)
     for name, q in QUICK.items():
-        search_format(ck, name, ck.budget(q, q * THOROUGH_FACTOR.get(name, 25)))
+        search_format(ck, name, bud(ck, FAMILIES if name == 'pcf' else (name,), q, q * THOROUGH_FACTOR.get(name, 25)))
         lap('search-' + name)
     for name, q in OBSERVER_QUICK.items():
-        observer_search(ck, name, ck.budget(q, q * 20))
+        observer_search(ck, name, bud(ck, (name,), q, q * 20))
     lap('observer-histories')
-    image_extra(ck, ck.budget(15, 150))
+    image_extra(ck, bud(ck, ('scenes-image',), 15, 150))
     sample_files(ck)
     lap('image-invariants+samples')
+    escalated(ck)
     ck.sample({'smd_lines_from_source': ck.extra.get('translated', {}).get('SmdTpl_gen', {}).get('lines', [])[:6]})
     # ---- broken obligations explained by concrete inputs
     keys = [v['key'] for v in ck.violations]
